@@ -78,6 +78,22 @@ Theorem C18_partial : forall (py_int : str -> option Z),
 Proof. exact sse_roundtrip. Qed.
 Print Assumptions C18_partial.
 
+(* the decoder model inverts the standard UTF-8 encoding of every string of Unicode scalar values, so the hypothesis
+   of C18_partial is satisfiable for every such text, and the statement can be made about chunkings of the encoded
+   bytes themselves *)
+Theorem C18_utf8_decode_encode : forall s, forallb valid_cp s = true -> utf8_decode (utf8_encode s) = Some s.
+Proof. exact utf8_decode_encode. Qed.
+Print Assumptions C18_utf8_decode_encode.
+
+Theorem C18_partial_bytes : forall (py_int : str -> option Z),
+  (forall ds, ds <> [] -> forallb is_digit ds = true -> py_int ds = Some (digits_val ds)) ->
+  forall t k bs cs, guard bs = true -> forallb valid_cp (encode t k bs) = true ->
+  concat cs = utf8_encode (encode t k bs) ->
+  iter_sse py_int cs = Some (map expected bs) /\
+  iter_sse_events_text py_int cs = Some (filter nonemptyb (map e_data (map expected bs))).
+Proof. exact sse_roundtrip_bytes. Qed.
+Print Assumptions C18_partial_bytes.
+
 Theorem C18_ndjson_roundtrip : forall (J : Type) (jl : str -> option J) (recs : list (str * J)) t cs,
   all_clean (map fst recs) ->
   (forall l j, In (l, j) recs -> strip l <> [] /\ jl (strip l) = Some j) ->
@@ -91,6 +107,13 @@ Theorem C18_refuted_F18a :
   forall py_int, sse_of_lines py_int (splitlines (encode LF TFull bs_F18a)) <> map expected bs_F18a.
 Proof. exact refuted_F18a. Qed.
 Print Assumptions C18_refuted_F18a.
+
+Theorem C18_refuted_F18a_ndjson :
+  guard_nd_F18a [nd_line_F18a] = false /\ forallb no_crlf [nd_line_F18a] = true /\
+  strip nd_line_F18a <> [] /\ jl_F18a (strip nd_line_F18a) = Some 1 /\
+  ndjson_of_lines N jl_F18a (splitlines (enc_lines LF [nd_line_F18a])) = ([], true).
+Proof. exact refuted_F18a_ndjson. Qed.
+Print Assumptions C18_refuted_F18a_ndjson.
 
 Theorem C18_refuted_F18b :
   guard_dom bs_F18b = true /\ guard_F18a bs_F18b = true /\ guard_F18b bs_F18b = false /\
